@@ -57,6 +57,34 @@ def _is_call(x, name):
     return isinstance(x, ast.Call) and call_name(x) == name
 
 
+def _queue_aliases(fx):
+    out = {f"self.{QUEUE}"}
+    if hasattr(fx, "body"):
+        for st in body_walk(fx):
+            for t, v in assign_pairs(st):
+                if isinstance(t, ast.Name) and src(v) == f"self.{QUEUE}":
+                    out.add(t.id)
+    return out
+
+
+def _index_walks(fx):
+    """``while ...: f, a, kw = Q[i] ...`` loops over (an alias of) the queue: [(While node, unpack statement, index name)]."""
+    out = []
+    if not hasattr(fx, "body"):
+        return out
+    al = _queue_aliases(fx)
+    for lp in [n for n in body_walk(fx) if isinstance(n, ast.While)]:
+        for st in lp.body:
+            if isinstance(st, ast.Assign) and isinstance(st.value, ast.Subscript) and src(st.value.value) in al and isinstance(st.value.slice, ast.Name) \
+                    and len(st.targets) == 1 and isinstance(st.targets[0], ast.Tuple):
+                out.append((lp, st, st.value.slice.id))
+    return out
+
+
+def _drains(fx):
+    return any(isinstance(x, ast.For) and QUEUE in src(x.iter) for x in body_walk(fx)) or bool(_index_walks(fx))
+
+
 def _const_one(e):
     return isinstance(e, ast.Constant) and type(e.value) is int and e.value == 1
 
@@ -84,8 +112,7 @@ def check(ctx):
         if unknown:
             raise AnalysisError(f"C13: new callFromThread implementation(s) not known to the checker: {unknown}")
         nacc = 0
-        drain_owner = next(("ReactorBase." + nm for nm, fx in methods(rb).items()
-                            if any(isinstance(x, ast.For) and QUEUE in src(x.iter) for x in body_walk(fx))), "ReactorBase.runUntilCurrent")
+        drain_owner = next(("ReactorBase." + nm for nm, fx in methods(rb).items() if _drains(fx)), "ReactorBase.runUntilCurrent")
         for rel in touchers:
             m = ctx.mod(rel)
             fns = list(m.functions())
@@ -170,8 +197,8 @@ def check(ctx):
     # ---- runUntilCurrent: the drain ------------------------------------------------------------------------------------------------
     with section(ctx, 'runUntilCurrent: the drain'):
         f_ruc = norm_func(ctx, BASE, "ReactorBase", "runUntilCurrent", RK)
-        drainers = [(nm, fx) for nm, fx in methods(rb).items() if any(isinstance(x, ast.For) and QUEUE in src(x.iter) for x in body_walk(fx))]
-        ctx.need(len(drainers) == 1, "exactly one ReactorBase method with a `for ... in self.threadCallQueue` loop")
+        drainers = [(nm, fx) for nm, fx in methods(rb).items() if _drains(fx)]
+        ctx.need(len(drainers) == 1, "exactly one ReactorBase method that walks self.threadCallQueue (for-loop, or index-driven while-loop)")
         drain_name, f = drainers[0]
         ctx.functions.add(f"{BASE}:ReactorBase.{drain_name}")
         if f is not f_ruc:
@@ -186,23 +213,41 @@ def check(ctx):
         g = ctx.cfg(f, swallowing=swallow)
         q = f"{QR}.{drain_name}"
         heads = g.ids(lambda n: n.kind == "for" and QUEUE in src(n.ast.iter))
-        ctx.need(len(heads) == 1, "one `for ... in self.threadCallQueue` loop in the drain function")
-        h = heads[0]
-        loop = g.node(h).ast
-        lkey = ctx.construct(q, f"for {src(loop.target)} in {src(loop.iter)}")
-        it_e = loop.iter
-        if isinstance(it_e, ast.Call) and dotted(it_e.func) in ("islice", "itertools.islice") and not it_e.keywords and (
-                len(it_e.args) == 2 or (len(it_e.args) == 3 and isinstance(it_e.args[1], ast.Constant) and it_e.args[1].value in (0, None))):
-            it_e = it_e.args[0]   # islice(queue, n): the first n entries, from the head, of the live list
-        ctx.check(src(it_e) == f"self.{QUEUE}", "drain/from-head", lkey,
-                  "the queue is not iterated from its head in place: calls of one thread run out of order, or the executed entries are not the deleted prefix")
-        ok = isinstance(loop.target, ast.Tuple) and len(loop.target.elts) == 3 and all(isinstance(e, ast.Name) for e in loop.target.elts)
+        walks = _index_walks(f)
+        ctx.need(len(heads) + len(walks) == 1, "one walk over self.threadCallQueue in the drain function")
+        index_var = None
+        if heads:
+            h = heads[0]
+            loop = g.node(h).ast
+            lkey = ctx.construct(q, f"for {src(loop.target)} in {src(loop.iter)}")
+            it_e = loop.iter
+            if isinstance(it_e, ast.Call) and dotted(it_e.func) in ("islice", "itertools.islice") and not it_e.keywords and (
+                    len(it_e.args) == 2 or (len(it_e.args) == 3 and isinstance(it_e.args[1], ast.Constant) and it_e.args[1].value in (0, None))):
+                it_e = it_e.args[0]   # islice(queue, n): the first n entries, from the head, of the live list
+            ctx.check(src(it_e) == f"self.{QUEUE}", "drain/from-head", lkey,
+                      "the queue is not iterated from its head in place: calls of one thread run out of order, or the executed entries are not the deleted prefix")
+            target = loop.target
+            it = [d for d, l in g.succ[h] if l == "iter"]
+            after = [d for d, l in g.succ[h] if l == "done"]
+        else:
+            # index-driven walk: entries are read as queue[i], i = 0, 1, 2, ... (checked below: i is the executed counter, starts at 0, +1 per
+            # iteration, read before it is incremented) - the same entries, in the same order, as iterating the live list from its head
+            loop, unpack, index_var = walks[0]
+            hs = g.ids(lambda n: n.kind == "join" and n.ast is loop)
+            ctx.need(len(hs) == 1, "head of the index-driven walk")
+            h = hs[0]
+            lkey = ctx.construct(q, "<index-driven walk over the queue>")
+            target = unpack.targets[0]
+            it = g.ids_of(loop.body[0])
+            ctests = [t for t in g.ids(lambda n: n.kind == "test") if any(g.node(t).ast is x for x in ast.walk(loop.test))]
+            after = sorted({d for t in ctests for d, l in g.succ[t] if l == "F" and d not in ctests})
+            reads = g.ids_of(unpack)
+            ctx.ok("drain/from-head", lkey, f"entries read as {src(unpack.value)}")
+        ok = isinstance(target, ast.Tuple) and len(target.elts) == 3 and all(isinstance(e, ast.Name) for e in target.elts)
         ctx.check(ok, "drain/entry-shape", lkey, "queue entries are not unpacked as (f, args, kwargs)")
         ctx.need(ok, "loop target (f, a, kw)")
-        fn, a_, kw_ = [e.id for e in loop.target.elts]
-        it = [d for d, l in g.succ[h] if l == "iter"]
-        after = [d for d, l in g.succ[h] if l == "done"]
-        outs = gfind(g, lambda x: isinstance(x, ast.Call) and isinstance(x.func, ast.Name) and x.func.id == fn and enclosing(x, (ast.For,)) is loop)
+        fn, a_, kw_ = [e.id for e in target.elts]
+        outs = gfind(g, lambda x: isinstance(x, ast.Call) and isinstance(x.func, ast.Name) and x.func.id == fn and enclosing(x, (ast.For, ast.While)) is loop)
         ctx.check(len(outs) == 1, "drain/each-entry-called-once", lkey, f"{len(outs)} call sites for a queue entry inside the loop (one expected)")
         for o in outs:
             c = next(x for x in ast.walk(g.node(o).ast) if isinstance(x, ast.Call) and isinstance(x.func, ast.Name) and x.func.id == fn)
@@ -230,6 +275,9 @@ def check(ctx):
                       "the deletion is not `del queue[:count]` with the count of executed calls: entries appended by other threads during the loop are dropped unexecuted, or executed ones kept")
             if ok:
                 counter = t.slice.upper.id
+                if index_var is not None:
+                    ctx.check(counter == index_var, "drain/executed-prefix-deleted", dkey + " | <index>",
+                              f"the prefix deleted is counted by `{counter}` but the entries executed are those below the index `{index_var}`")
             ctx.check(enclosing(g.node(d).ast, (ast.For, ast.While)) is None, "drain/executed-prefix-deleted", dkey + " | <after loop>",
                       "the prefix is deleted while the queue is being iterated (the iterator skips entries)")
             w = must_pass(g, [h], [d], exc=False)
@@ -244,12 +292,16 @@ def check(ctx):
             ok = len(inits) == 1 and all(is_zero(v) for t, v in assign_pairs(g.node(inits[0]).ast) if isinstance(t, ast.Name) and t.id == counter) \
                 and enclosing(g.node(inits[0]).ast, (ast.For, ast.While)) is None and g.must_precede(inits, [h]) is None
             ctx.check(ok, "drain/count-matches-executed", ckey + " | init", "the executed-calls counter does not start at 0 once before the loop")
-            ok = len(incs) == 1 and isinstance(g.node(incs[0]).ast.op, ast.Add) and _const_one(g.node(incs[0]).ast.value) and enclosing(g.node(incs[0]).ast, (ast.For,)) is loop
+            ok = len(incs) == 1 and isinstance(g.node(incs[0]).ast.op, ast.Add) and _const_one(g.node(incs[0]).ast.value) and enclosing(g.node(incs[0]).ast, (ast.For, ast.While)) is loop
             ctx.check(ok, "drain/count-matches-executed", ckey + " | increment", "the counter is not incremented by exactly one inside the loop")
             w = must_pass(g, it, incs, to=[h] + after + dels, exc=True)
             ctx.check(w is None, "drain/count-matches-executed", ckey + " | every iteration",
                       "an iteration (e.g. one whose call raised, or the one that breaks out) is not counted: its call is executed but stays in the queue and runs again",
                       witness=g.describe(w))
+            if index_var is not None and counter == index_var:
+                w = next((g.path([i], reads, avoid={h}) for i in incs if g.path([i], reads, avoid={h})), None)
+                ctx.check(w is None, "drain/from-head", lkey + " | <read before increment>",
+                          "the index is advanced before the entry is read: the first queued call is skipped (and deleted unexecuted)", witness=g.describe(w))
             for i in incs:
                 w = g.path([i], incs, avoid={h}, strict=True)
                 ctx.check(w is None, "drain/count-matches-executed", ckey + " | at most once", "an iteration can be counted twice: an unexecuted call is deleted", witness=g.describe(w))
@@ -598,6 +650,8 @@ MUTANTS = [
            "                if count + 1 == total:\n                    break\n                count += 1\n", expect_rule="drain/count-matches-executed"),
     Mutant("call-outside-handler", BASE, "                with _threadCallHandler:\n                    f(*a, **kw)\n                count += 1\n",
            "                f(*a, **kw)\n                count += 1\n", expect_rule="drain/isolated"),
+    Mutant("index-walk-does-not-count-a-raising-call", BASE, "            for f, a, kw in self.threadCallQueue:\n                with _threadCallHandler:\n                    f(*a, **kw)\n                count += 1\n                if count == total:\n                    break\n", "            pending = self.threadCallQueue\n            while count < total:\n                f, a, kw = pending[count]\n                with _threadCallHandler:\n                    f(*a, **kw)\n                    count += 1\n", expect_rule="drain/count-matches-executed"),
+    Mutant("index-walk-advances-before-reading", BASE, "            for f, a, kw in self.threadCallQueue:\n                with _threadCallHandler:\n                    f(*a, **kw)\n                count += 1\n                if count == total:\n                    break\n", "            pending = self.threadCallQueue\n            while count < total:\n                count += 1\n                f, a, kw = pending[count]\n                with _threadCallHandler:\n                    f(*a, **kw)\n", expect_rule="drain/from-head"),
     Mutant("remainder-not-woken", BASE, "            del self.threadCallQueue[:count]\n            if self.threadCallQueue:\n                self.wakeUp()\n",
            "            del self.threadCallQueue[:count]\n", expect_rule="drain/remainder-wakes"),
     Mutant("same-thread-shortcut", BASE, "            assert callable(f), f\"{f} is not callable\"\n            # lists are thread-safe in CPython",
@@ -646,4 +700,6 @@ SILENT = [
     # --- second round of independent refactors
     Silent("asyncio-rearm-decision-named", ASYNCIO, "        if self._scheduledAt is None or abs_time < self._scheduledAt:\n            self._reschedule()\n",
            "        armedFor = self._scheduledAt\n        mustRearm = armedFor is None or abs_time < armedFor\n        if not mustRearm:\n            return dc\n        self._reschedule()\n"),
+    # --- third round: the drain as an index-driven walk over the same list object
+    Silent("drain-walks-the-queue-by-index", BASE, "            for f, a, kw in self.threadCallQueue:\n                with _threadCallHandler:\n                    f(*a, **kw)\n                count += 1\n                if count == total:\n                    break\n", "            pending = self.threadCallQueue\n            while count < total:\n                f, a, kw = pending[count]\n                with _threadCallHandler:\n                    f(*a, **kw)\n                count += 1\n"),
 ]
